@@ -141,10 +141,16 @@ fn c14_generate(ctx: &mut Ctx) {
     let pool = pki::Pool::new(3);
     let seeds: Vec<(&'static str, Vec<u8>)> = c04::seeds(&pool).into_iter().filter(|s| s.0 == "mft").collect();
     certd::generate_cms_into(ctx, &seeds, &c04::mutate_any, &|_| Vec::new());
+    // the same objects through `Manifest::decode(.., strict = false)` with BER's liberties
+    berd::generate_ber_into(ctx, &seeds, &c04::mutate_any);
 }
 
 fn c14_exec(toks: &[&str]) -> String {
-    if toks.first() == Some(&"cmsd") { certd::exec_cms(toks) } else { c14::exec(toks) }
+    match toks.first() {
+        Some(&"cmsd") => certd::exec_cms(toks),
+        Some(&"cmsdr") => berd::exec_cms_relaxed(toks),
+        _ => c14::exec(toks),
+    }
 }
 
 fn c04_generate(ctx: &mut Ctx) {
